@@ -19,17 +19,71 @@ def guard_atoms(guard):
     return [atom_of(l) for l in guard]
 
 
+def _boolish(e):
+    from .ir import _is_bool
+    return _is_bool(e)
+
+
+def leaf_atoms(e, out=None):
+    """Canonical texts of the leaves of a boolean combination (&, |, ~ over 1-bit operands)."""
+    if out is None:
+        out = set()
+    if isinstance(e, E) and e.op in ('&', '|') and all(_boolish(a) for a in e.args):
+        for a in e.args:
+            leaf_atoms(a, out)
+    elif isinstance(e, E) and e.op == '~' and _boolish(e.args[0]):
+        leaf_atoms(e.args[0], out)
+    elif isinstance(e, E) and e.op == 'const':
+        pass
+    else:
+        out.add(e.canon() if isinstance(e, E) else str(e))
+    return out
+
+
+def eval_bool(e, asg):
+    """Truth of a boolean combination under an assignment of its leaves (None if undetermined).
+    A compound expression that is itself assigned (assumed) takes that value."""
+    c = e.canon() if isinstance(e, E) else str(e)
+    if c in asg:
+        return asg[c]
+    if isinstance(e, E):
+        if e.op == 'const':
+            return bool(e.val)
+        if e.op == '~' and _boolish(e.args[0]):
+            v = eval_bool(e.args[0], asg)
+            return None if v is None else (not v)
+        if e.op in ('&', '|') and all(_boolish(a) for a in e.args):
+            vals = [eval_bool(a, asg) for a in e.args]
+            if e.op == '&':
+                if any(v is False for v in vals):
+                    return False
+                return None if any(v is None for v in vals) else True
+            if any(v is True for v in vals):
+                return True
+            return None if any(v is None for v in vals) else False
+    return None
+
+
+def lit_atoms(lit):
+    if lit.kind == 'cfg':
+        return {'cfg:' + (lit.e.canon() if isinstance(lit.e, E) else str(lit.e))}
+    return leaf_atoms(lit.e)
+
+
 def holds(guard, assignment, default=None):
     """Truth of a conjunct-set guard under a (partial) assignment atom->bool.
     Returns True / False, or `default` if some atom is unassigned and nothing is false."""
     unknown = False
-    for atom, pos in guard_atoms(guard):
-        if atom == '0':                      # constant-false literal
-            return False
-        if atom not in assignment:
+    for l in guard:
+        if l.kind == 'cfg':
+            a, _ = atom_of(l)
+            v = assignment.get(a)
+        else:
+            v = eval_bool(l.e, assignment) if isinstance(l.e, E) else assignment.get(str(l.e))
+        if v is None:
             unknown = True
             continue
-        if assignment[atom] != pos:
+        if v != l.pos:
             return False
     return default if unknown else True
 
@@ -79,7 +133,8 @@ def state_outcomes(fsm, state, assume=None, extra=None):
     edges = sorted(fsm.out_edges(state), key=lambda e: e.order)
     atoms = []
     for e in edges:
-        atoms += [a for a, _ in guard_atoms(e.guard)]
+        for l in e.guard:
+            atoms += list(lit_atoms(l))
     out = {}
     for asg in assignments(atoms, assume):
         dst = None
